@@ -5,10 +5,10 @@ import "verifharness/vh"
 
 func main() {
 	vh.Main(map[string]vh.Mode{
-		"c09": c09,
-		"c43": c43,
-		"c36": c36,
+		"c09":      c09,
+		"c43":      c43,
+		"c36":      c36,
 		"c36probe": c36probe,
-		"c08": c08,
+		"c08":      c08,
 	})
 }
